@@ -1,11 +1,12 @@
 """C16 - ovnisort yields a stable sorted permutation and touches only what it must.
 
 Spec: spec/OvniSort.tla (property layer + the algorithm of src/emu/ovnisort.c),
-spec/OvniSortMC.tla (bounded instances), spec/OvniSortTrace.tla (recorded runs).
+spec/OvniSortMC.tla (bounded instances), spec/OvniSortCases.tla (pinned streams),
+spec/OvniSortTrace.tla (recorded runs).
 
-1. TLC checks `Impl => Property` on ALL streams within the bounds (one process
-   per ring size), and refutes the deliberately wrong variants (negative
-   configurations).
+1. TLC checks `Impl => Property` on ALL streams within the bounds of several
+   instances (thorough: one process per ring size), and refutes the
+   deliberately wrong variants (negative configurations).
 2. Generated direction: every (stream, ring) exported by TLC is materialised
    byte for byte with vlib.obs, `ovnisort -n <ring>` is run on it and the
    decoded result is compared with what TLC exported: the expected class
@@ -362,7 +363,7 @@ def tlc_jobs(tier):
 def start_tlc_helper(jobs, tier):
     """Fork a helper that runs the TLC jobs (a few at a time) and pickles the
     results; returns (pid, path)."""
-    d = core.mkscratch("c16tlc")
+    d = tempfile.mkdtemp(prefix="tlc-", dir=scratch_root())
     path = os.path.join(d, "results.pkl")
     sys.stdout.flush()
     sys.stderr.flush()
